@@ -48,6 +48,19 @@ Section Rules.
       destruct f as [|f]; [lia|]. rewrite parse_S, Hn, E, (Hb f f) by lia. reflexivity.
   Qed.
 
+  Lemma evals_node_ok i cp p nd p1 p2 t :
+    nth_error g i = Some nd ->
+    (if cp && ncallpre nd then pre_to nd p p1 else p1 = p) ->
+    impls nd p1 (POk p2 t) ->
+    evals i cp p (POk p2 (add_tags (ntags nd) (post (nkind nd) t))).
+  Proof. intros Hn Hp Hi. exact (evals_node i cp p nd p1 _ Hn Hp Hi). Qed.
+  Lemma evals_node_fail i cp p nd p1 :
+    nth_error g i = Some nd ->
+    (if cp && ncallpre nd then pre_to nd p p1 else p1 = p) ->
+    impls nd p1 PFail ->
+    evals i cp p PFail.
+  Proof. intros Hn Hp Hi. exact (evals_node i cp p nd p1 _ Hn Hp Hi). Qed.
+
   (* ---- skipping and preParse ---- *)
   Lemma skips_nil p : skips [] p p.
   Proof. exists 0. intros; reflexivity. Qed.
